@@ -26,7 +26,8 @@ RULE = ("Arc subsets (complete graph minus random arcs, optionally with upstream
         "2..4 (5 thorough) that meet the precondition; approximate_capacity(G, repeats=r) for r in {2,3,5,10} after "
         "numpy.random.seed(random) and for r = 1; regular graphs (exactly d live successors per live vertex, d = 1..4) built from "
         "threshold-d closed graphs; arbitrary arc subsets and the arc-less graph for the <= 2 / == 0 claims. Non-trivial: the "
-        "graph is not regular (the answer is not log2 of an integer by construction); distinct = hash of (graph, repeats).")
+        "graph is not regular (the answer is not log2 of an integer by construction); distinct = hash of (graph, repeats)."
+        ' Also: graphs with a uniform raw out-degree whose arcs partly lead to arc-less vertices, and unpruned sparse arc subsets (sources, dead ends, thin cores) at orders 2-3; repeats = 1, 2 and one of 3/5/10 on every judged graph.')
 TOL = 1e-4 + 1e-8
 
 
